@@ -12,16 +12,17 @@ CONSTANTS MaxEvents,    \* events in the body of the top function
 Counter == [feed |-> 1, body |-> <<>>]
 Lag     == [feed |-> 0, body |-> <<[k |-> "mem"]>>]
 Pacc    == [feed |-> 2, body |-> <<>>]
+Nacc    == [feed |-> 3, body |-> <<>>]       \* self is a nested tuple (float,(float,float)): one cell of three words
 Nest    == [feed |-> 0, body |-> <<[k |-> "call", f |-> Counter], [k |-> "call", f |-> Counter],
                                    [k |-> "call", f |-> Lag]>>]
 Gate    == [feed |-> 1, body |-> <<[k |-> "if", t |-> <<[k |-> "mem"]>>, e |-> <<>>]>>]
-Callees == {Counter, Lag, Pacc, Nest, Gate}
+Callees == {Counter, Lag, Pacc, Nacc, Nest, Gate}
 
 Atoms == IF AtomSet = "full"
          THEN {[k |-> "mem"], [k |-> "delay", n |-> 1], [k |-> "delay", n |-> 3]}
                 \cup {[k |-> "call", f |-> c] : c \in Callees}
          ELSE {[k |-> "mem"], [k |-> "delay", n |-> 2]}
-                \cup {[k |-> "call", f |-> c] : c \in {Counter, Pacc, Gate}}
+                \cup {[k |-> "call", f |-> c] : c \in {Counter, Pacc, Nacc, Gate}}
 Seqs(S, n) == UNION {[1..k -> S] : k \in 0..n}
 If0 == {[k |-> "if", t |-> t, e |-> e] : t \in Seqs(Atoms, MaxArm), e \in Seqs(Atoms, MaxArm)}
 ArmEv == IF NestIf THEN Atoms \cup {[k |-> "if", t |-> t, e |-> e] : t \in Seqs(Atoms, 1), e \in Seqs(Atoms, 1)}
